@@ -3,6 +3,7 @@ CONSTANTS
   Val = {v1, v2, v3}
   Stranger = {}
   MaxReq = 2
+  Units = 1
   ExpSet = {1, 2, 3}
   PenaltySet = {2}
   DtSet = {1}
